@@ -257,6 +257,86 @@ def _slop_cases(rng, n):
     return out
 
 
+def _purity_cases(rng, n):
+    """operation sequences of the purity state machine (queries, selections, copies, cache warming) on a fresh index;
+    score operations are left to the extracted binary (Flocq terms under vm_compute cost seconds each)"""
+    out = []
+
+    def opt(v):
+        return "None" if v is None else f"(Some {v})"
+
+    def osx(v):
+        return "none" if v is None else ["some", v]
+    for _ in range(n):
+        nd = rng.randint(1, 4)
+        vocab = rng.randint(1, 3)
+        docs = [[rng.randint(1, vocab) for _ in range(rng.choice([0, 2, 5, 19, 37]))] for _ in range(nd)]
+        narr, sizes = 1, [nd]
+        sxops, cops, kinds = [], [], []
+        for _ in range(rng.randint(2, 7)):
+            a = rng.randint(0, narr - 1) if rng.random() < 0.95 else narr + 1
+            k = rng.choice(["tf", "phrase", "pos", "df", "lens", "select", "copy", "warm"])
+            t = rng.randint(1, vocab + 1)
+            if k == "tf":
+                lo, hi = rng.choice([(None, None), (0, 17), (18, None), (None, 35), (3, 17)])
+                sxops.append(["tf", a, t, osx(lo), osx(hi)]); cops.append(f"OTf {a}%nat {t} {opt(lo)} {opt(hi)}"); kinds.append("RVec")
+            elif k == "phrase":
+                ph = [rng.randint(1, vocab) for _ in range(2)]
+                sxops.append(["phrase", a, ph, "none", "none"]); cops.append(f"OPhrase {a}%nat {_nl(ph)} None None"); kinds.append("RVec")
+            elif k == "pos":
+                sxops.append(["pos", a, t]); cops.append(f"OPos {a}%nat {t}"); kinds.append("RPos")
+            elif k == "df":
+                sxops.append(["df", a, t]); cops.append(f"ODf {a}%nat {t}"); kinds.append("RNum")
+            elif k == "lens":
+                sxops.append(["lens", a]); cops.append(f"OLens {a}%nat"); kinds.append("RVec")
+            elif k == "select":
+                sz = sizes[a] if a < narr else 1
+                pos = [rng.randint(0, max(sz - 1, 0)) for _ in range(rng.randint(0, 3))]
+                sxops.append(["select", a, pos]); cops.append(f"OSelect {a}%nat {_nl(pos)}"); kinds.append("RUnit")
+                if a < narr and sz > 0:
+                    narr += 1; sizes.append(len(pos))
+            elif k == "copy":
+                sxops.append(["copy", a]); cops.append(f"OCopy {a}%nat"); kinds.append("RUnit")
+                if a < narr:
+                    narr += 1; sizes.append(sizes[a])
+            else:
+                sxops.append(["warm", a]); cops.append(f"OWarm {a}%nat"); kinds.append("RUnit")
+        cg = rng.choice([0, 1, 50])
+        bs = nd + 1
+        lhs = (f"match index_g false {bs}%nat {_nll(docs)} with AOk ix => Some (fst (run (init_pool ix {cg}) "
+               f"[{'; '.join(cops)}])) | _ => None end")
+
+        def rhs(r, kinds=kinds):
+            if r[0] != "ok":
+                return "None"
+            items = []
+            for o in r[1]:
+                # the constructor is recovered from the shape of the payload, not from the request
+                if o[0] != "ok":
+                    items.append(None)
+                    continue
+                v = o[1]
+                if v == "unit":
+                    items.append("RUnit (AOk tt)")
+                elif isinstance(v, list) and v and isinstance(v[0], list):
+                    items.append("RPos (AOk " + _nll(v) + ")")
+                elif isinstance(v, list):
+                    items.append(None if not v else "RVec (AOk " + _nl(v) + ")")
+                else:
+                    items.append("RNum (AOk " + str(int(v)) + ")")
+            for i, o in enumerate(r[1]):
+                if items[i] is None:        # errors and empty lists: constructor from the operation kind
+                    if o[0] == "ok":
+                        items[i] = f"{kinds[i]} (AOk [])"
+                    else:
+                        items[i] = None
+            if any(x is None for x in items):
+                return None
+            return "Some [" + "; ".join(items) + "]"
+        out.append({"req": C.sx(["purity_run", cg, bs, docs, sxops]), "lhs": lhs, "rhs": rhs})
+    return out
+
+
 PROVIDERS = {
     "C11": ("From SA Require Import Base.Prelude Solr.MM Solr.MM_Spec.\nOpen Scope Z_scope.\n", _mm_cases, 150),
     "C12": ("From SA Require Import Base.Prelude Kernels.Intersect.\nOpen Scope N_scope.\n", _intersect_cases, 120),
@@ -269,6 +349,7 @@ PROVIDERS = {
     "C16": ("From SA Require Import Base.Prelude Index.Index Index.Truncate Query.Phrase Query.Range.\nOpen Scope N_scope.\n", _range_cases, 80),
     "C06": ("From SA Require Import Base.Prelude Index.Index Index.Fast View.View.\nOpen Scope N_scope.\n", _view_cases, 80),
     "C15": ("From SA Require Import Base.Prelude Index.Index Index.Truncate Span.Span.\nOpen Scope N_scope.\n", _slop_cases, 60),
+    "C07": ("From SA Require Import Base.Prelude Index.Index Index.Fast View.View View.Purity.\nOpen Scope N_scope.\n", _purity_cases, 80),
     "C13": ("From SA Require Import Base.Prelude Codec.Codec.\nOpen Scope N_scope.\n", _codec_cases, 120),
 }
 
@@ -283,16 +364,20 @@ def run(prop_id, seed=0):
     cases = gen(rng, n)
     answers = C.run_model([c["req"] for c in cases])
     os.makedirs(XDIR, exist_ok=True)
+    skipped = 0
     name = f"X_{prop_id}_{os.getpid()}"
     path = os.path.join(XDIR, name + ".v")
     with open(path, "w") as f:
         f.write("(* generated by harness/xcheck.py: the extracted binary's answers, re-evaluated by vm_compute *)\n")
         f.write("From Coq Require Import ZArith NArith List.\nImport ListNotations.\n" + header)
         for c, a in zip(cases, answers):
+            if c["rhs"](a) is None:
+                skipped += 1
+                continue
             f.write(f"Goal ({c['lhs']}) = ({c['rhs'](a)}). Proof. vm_compute. reflexivity. Qed.\n")
     p = subprocess.run(["timeout", "600", "coqc", "-Q", os.path.join(C.COQ_DIR, "theories"), "SA", path],
                        capture_output=True, text=True, cwd=XDIR)
-    res = {"cases": len(cases), "ok": p.returncode == 0, "wall_s": round(time.time() - t0, 1),
+    res = {"cases": len(cases) - skipped, "skipped_error_outputs": skipped, "ok": p.returncode == 0, "wall_s": round(time.time() - t0, 1),
            "what": "answers of ocaml/samodel re-evaluated inside Coq by vm_compute (sampled test of the extraction)"}
     if p.returncode != 0:
         res["error"] = (p.stdout + p.stderr)[-1200:]
